@@ -39,12 +39,74 @@ var c16Statements = []string{
 	"SELECT AVG(SUM(x)) AS s FROM t0", "SELECT WAVG(x) AS s FROM t0", "SELECT WAVG(x, SUM(y)) AS s FROM t0", "SELECT LN() AS s FROM t0", "SELECT x + AS s FROM t0", "SELECT (x AS s FROM t0", "SELECT x) AS s FROM t0",
 }
 
+// every function name the SQL layer knows, with the arities it accepts when
+// they need an external service (redis, geo/ISP databases) to evaluate: those
+// well-formed calls are configuration matters, not malformed input
+var c16Funcs = []string{"SUM", "MIN", "MAX", "COUNT", "AVG", "WAVG", "IF", "BOUNDED", "PERCENTILE", "SHIFT", "CROSSHIFT", "LN", "LOG2", "LOG10",
+	"RAND", "CITY", "REGION", "REGION_CITY", "COUNTRY_CODE", "ISP", "ORG", "ASN", "ASNAME", "LEN", "HGET", "SISMEMBER", "SPLIT", "SUBSTR", "REPLACEALL", "LUA",
+	"CONCAT", "CROSSTAB", "CROSSTABT", "ANY", "ARRAY", "DECODE", "PERIOD", "STRIDE", "NOSUCHFN"}
+
+var c16NeedsService = map[string]int{"CITY": 1, "REGION": 1, "REGION_CITY": 1, "COUNTRY_CODE": 1, "ISP": 1, "ORG": 1, "ASN": 1, "ASNAME": 1, "HGET": 2, "SISMEMBER": 2, "LUA": 3}
+
+var c16Args = []string{"x", "y", "da", "db", "f0", "99", "0", "-1", "1000", "2", "'a'", "'1s'", "'-1s'", "'garbage'", "*", "NULL", "SUM(x)", "AVG(y)", "x + 1", "da = 'a'", "ARRAY('k')", "ARRAY()", "(SELECT 1)", "1e999", "''", "1.5"}
+
+var c16Canon = map[string][]string{
+	"SUM": {"x"}, "MIN": {"x"}, "MAX": {"x"}, "COUNT": {"x"}, "AVG": {"x"}, "WAVG": {"x", "y"}, "IF": {"da = 'a'", "x"}, "BOUNDED": {"x", "0", "10"},
+	"PERCENTILE": {"x", "99", "0", "1000", "2"}, "SHIFT": {"SUM(x)", "'-1s'"}, "CROSSHIFT": {"SUM(x)", "'-2s'", "'1s'"}, "LN": {"x"}, "LOG2": {"x"}, "LOG10": {"x"},
+	"LEN": {"da"}, "SPLIT": {"da", "'a'", "0"}, "SUBSTR": {"da", "0", "1"}, "REPLACEALL": {"da", "'a'", "'b'"}, "CONCAT": {"'_'", "da", "db"}, "CROSSTAB": {"da", "db"}, "CROSSTABT": {"da"},
+	"ANY": {"da", "db"}, "ARRAY": {"'a'", "'b'"}, "DECODE": {"da", "'a'", "'1'", "'2'"}, "PERIOD": {"'5s'"}, "STRIDE": {"'10s'"},
+	"LUA": {"'return 1'", "ARRAY('k')", "ARRAY('a')"}, "HGET": {"'h'", "da"}, "SISMEMBER": {"'s'", "da"},
+}
+
+// genFnCall: a call of a known function with 0..6 arguments of arbitrary
+// kinds, in one of the places where an expression may stand.
+func genFnCall(r *Rng) string {
+	fn := PickOne(r, c16Funcs)
+	n := r.Intn(7)
+	if k, ok := c16NeedsService[fn]; ok && n == k {
+		n++
+	}
+	var args []string
+	// well-typed arguments in the wrong number reach further into a
+	// function's argument handling than arbitrary ones
+	canon := c16Canon[fn]
+	useCanon := len(canon) > 0 && r.Bool(0.6)
+	for i := 0; i < n; i++ {
+		if useCanon {
+			args = append(args, canon[i%len(canon)])
+		} else {
+			args = append(args, PickOne(r, c16Args))
+		}
+	}
+	call := fn + "(" + strings.Join(args, ", ") + ")"
+	switch r.Intn(8) {
+	case 0:
+		return "SELECT " + call + " AS s FROM t0"
+	case 1:
+		return "SELECT " + PickOne(r, []string{"SUM", "AVG", "IF", "LN"}) + "(" + call + ") AS s FROM t0"
+	case 2:
+		return "SELECT * FROM t0 GROUP BY " + call + " AS g"
+	case 3:
+		return "SELECT * FROM t0 WHERE " + call + " = 'a'"
+	case 4:
+		return "SELECT * FROM t0 HAVING " + call + " > 1"
+	case 5:
+		return "SELECT IF(" + call + " = 1, x) AS s FROM t0"
+	case 6:
+		return "SELECT f0 FROM t0 GROUP BY da ORDER BY " + call
+	default:
+		return "SELECT " + call + " + " + call + " AS s, * FROM t0 GROUP BY " + call
+	}
+}
+
 func mutateSQL(r *Rng, base string) string {
 	toks := strings.Fields(base)
 	if len(toks) == 0 {
 		return PickOne(r, c16Statements)
 	}
-	switch r.Intn(9) {
+	switch r.Intn(12) {
+	case 9, 10, 11:
+		return genFnCall(r)
 	case 0:
 		return PickOne(r, c16Statements)
 	case 1: // delete a token
